@@ -568,7 +568,14 @@ func setupContextDeadliner(ctx context.Context, conn net.Conn) (done func(*error
 		// Even on race condition when both deadlines are expired
 		// (SetDeadline() made not by us and context's), we prefer ctx.Err() to
 		// be returned.
-		if ctxErr := <-interrupt; ctxErr != nil && (*err == nil || isTimeoutError(*err)) {
+		ctxErr := <-interrupt
+		if ctxErr == nil {
+			// The goroutine above may have picked the quit case even though
+			// ctx was done already (select chooses randomly among ready
+			// cases), so consult the context itself.
+			ctxErr = ctx.Err()
+		}
+		if ctxErr != nil && (*err == nil || isTimeoutError(*err)) {
 			*err = ctxErr
 		}
 	}
